@@ -681,3 +681,48 @@ VARIANTS += [
 """,
         "    def _dequeue(self):\n", note='one-line factory helper'),
 ]
+
+VARIANTS += [
+    _xm('G-xm-10', WK,
+        """                    if not isinstance(x, (Exception, RemoteException)):
+                        try:
+                            x = preprocess(x)
+                        except Exception as e:
+                            x = e
+
+                # If it's an exception, short-circuit to output.
+""",
+        """                    if not self._is_failure(x):
+                        try:
+                            x = preprocess(x)
+                        except Exception as e:
+                            x = e
+
+                # If it's an exception, short-circuit to output.
+""",
+        """    def _is_failure(self, x):
+        return isinstance(x, (Exception, RemoteException))
+
+""",
+        "    def _start_single(self, *, q_in, q_out):\n", note='predicate helper used inside a test'),
+    _xm('G-xm-11', SV,
+        """            while len(pipeline) >= self._capacity:
+                # Re-check after every wake-up: another caller may have taken the freed spot.
+                if backpressure:
+                    raise ServerBacklogFull(len(pipeline))
+                t = timeout * 0.99 - (perf_counter() - t0)
+                if t <= 0 or not self._pipeline_notfull.wait(t):
+""",
+        """            while self._full(pipeline):
+                # Re-check after every wake-up: another caller may have taken the freed spot.
+                if backpressure:
+                    raise ServerBacklogFull(len(pipeline))
+                t = timeout * 0.99 - (perf_counter() - t0)
+                if t <= 0 or not self._pipeline_notfull.wait(t):
+""",
+        """    def _full(self, pipeline):
+        return len(pipeline) >= self._capacity
+
+""",
+        "    def _wait_for_result(self, fut: concurrent.futures.Future):\n", note='capacity guard as a one-line predicate'),
+]
